@@ -6,6 +6,8 @@
  *
  *   GV_RELY_NONE      any value at any time (monotone cells, counters, bitset
  *                     words: atomicMin/Max/Add, DynamicBitSet)
+ *   GV_RELY_EXPR(o,n) protocol-specific relation between the old and the new value,
+ *                     stated (and justified) by the unit that defines it
  *   GV_RELY_LOCK      lock word, bit 0 = held: while the ghost says THIS thread
  *                     holds the lock nobody else clears bit 0 or changes the
  *                     other bits (only the holder unlocks / writes the payload);
@@ -56,6 +58,9 @@ static inline void gv_env(gv_atomic* a)
 #if defined(GV_RELY_LOCK)
   if (g_held) { __CPROVER_assume(nv == a->v); }
 #elif defined(GV_RELY_NONE)
+#elif defined(GV_RELY_EXPR)
+  /* protocol-specific rely, stated by the unit: GV_RELY_EXPR(old, new) */
+  __CPROVER_assume(GV_RELY_EXPR(a->v, nv));
 #else
 #error "a unit using gv_atomic.h must define its rely: GV_RELY_NONE or GV_RELY_LOCK"
 #endif
